@@ -57,21 +57,21 @@ NAME_EXTRAS = ['iff', 'ending', 'end', 'end_if', 'endif', 'selfish', 'selected_'
                'integer', 'real', 'boolean', 'unique_id', 'inst_ref', 'instance', 'event', 'void', 'operation', 'function']
 
 
-def token_like_names():
+def token_like_names(tier='thorough'):
     from bridgepoint import oal
     kw = set(oal.OALParser.keywords)
     names = [t for t in oal.OALParser.tokens if t not in kw]
     out = []
     for n in names:
-        for form in (n.lower(), n, n.capitalize()):
+        for form in ((n.lower(), n, n.capitalize()) if tier == 'thorough' else (n.lower(), n.capitalize())):
             if form not in out:
                 out.append(form)
     return out + NAME_EXTRAS
 
 
-def names_family():
+def names_family(tier='thorough'):
     out = []
-    for n in token_like_names():
+    for n in token_like_names(tier):
         leaves = [V(n), ('field', V('a'), n), ('field', V(n), n), ('param', n), ('field', ('param', 'p'), n), ('rcvd', n),
                   ('field', ('self',), n), ('index', V(n), I(1)), ('fcall', n, []), ('fcall', 'f', [(n, I(1)), ('b', V(n))]),
                   ('ncall', 'NS', n, [(n, I(1))]), ('ncall', n, 'g', []), ('icall', V(n), n, [(n, V(n))]),
